@@ -278,4 +278,44 @@ theorem sumR_min_attained (g : ℕ → W) (n : ℕ) : sumR min ⊤ g n = ⊤ ∨
 
 end
 
+/-! ### three-way comparison lanes (NEON FMAX / FMIN on numbers): larger / smaller operand, `tie x y` when equal -/
+section
+variable {T V : Type} [LinearOrder V]
+
+theorem cmp3_isMax (Num : T → Prop) (val : T → V) (lt : T → T → Bool) (tie : T → T → T)
+    (hlt : ∀ x y, Num x → Num y → (lt x y = true ↔ val x < val y))
+    (htie : ∀ x y, Num x → Num y → val x = val y → Num (tie x y) ∧ val (tie x y) = val x) :
+    IsMaxOn Num val (fun x y => if lt y x then x else if lt x y then y else tie x y) := by
+  intro x y hx hy
+  by_cases h1 : lt y x = true
+  · simp only [h1, if_true]
+    exact ⟨hx, (max_eq_left (le_of_lt ((hlt y x hy hx).mp h1))).symm⟩
+  · by_cases h2 : lt x y = true
+    · simp only [h1, h2, if_true]
+      exact ⟨hy, (max_eq_right (le_of_lt ((hlt x y hx hy).mp h2))).symm⟩
+    · simp only [h1, h2, Bool.false_eq_true, if_false]
+      have e : val x = val y := le_antisymm
+        (not_lt.mp (fun c => h1 ((hlt y x hy hx).mpr c))) (not_lt.mp (fun c => h2 ((hlt x y hx hy).mpr c)))
+      obtain ⟨a, b⟩ := htie x y hx hy e
+      exact ⟨a, by rw [b, e, max_self]⟩
+
+theorem cmp3_isMin (Num : T → Prop) (val : T → V) (lt : T → T → Bool) (tie : T → T → T)
+    (hlt : ∀ x y, Num x → Num y → (lt x y = true ↔ val x < val y))
+    (htie : ∀ x y, Num x → Num y → val x = val y → Num (tie x y) ∧ val (tie x y) = val x) :
+    IsMinOn Num val (fun x y => if lt x y then x else if lt y x then y else tie x y) := by
+  intro x y hx hy
+  by_cases h1 : lt x y = true
+  · simp only [h1, if_true]
+    exact ⟨hx, (min_eq_left (le_of_lt ((hlt x y hx hy).mp h1))).symm⟩
+  · by_cases h2 : lt y x = true
+    · simp only [h1, h2, if_true]
+      exact ⟨hy, (min_eq_right (le_of_lt ((hlt y x hy hx).mp h2))).symm⟩
+    · simp only [h1, h2, Bool.false_eq_true, if_false]
+      have e : val x = val y := le_antisymm
+        (not_lt.mp (fun c => h2 ((hlt y x hy hx).mpr c))) (not_lt.mp (fun c => h1 ((hlt x y hx hy).mpr c)))
+      obtain ⟨a, b⟩ := htie x y hx hy e
+      exact ⟨a, by rw [b, e, min_self]⟩
+
+end
+
 end Cfavml.ExtremeSem
